@@ -38,4 +38,34 @@ def check(run):
         for k in range(1 if quick else 12):
             seqs.append(mk(backend, rng.choice([10, 20]), rng.randint(2, 5)))
         run.differential(f"proof-{backend}", seqs)
-    run.rules.append("random histories, then for every position (depth <= 4) or boundary+random positions: the proof's siblings, direction bits, length, decoded index, recomputed root, own check; then every single-sibling replacement, every direction-bit flip and a foreign leaf value must be rejected unless the ideal tree says the altered path still recomputes the root; distinct = distinct op sequence")
+    # ---- trees created with an initial leaf value other than the hasher's default leaf (`ZerokitMerkleTree::new(depth, initial, …)`):
+    #      deletions write the default leaf, never-written positions hold the initial one. No model instance exists for this
+    #      configuration; the oracle is the property itself (every proof recomputes the tree's root from the stored leaf and passes the
+    #      tree's own check) plus agreement of the two in-memory backends on every line.
+    zkh = run.harness()
+    bad = 0
+    for k in range(20 if quick else 200):
+        depth = rng.choice([2, 3, 4, 5])
+        cap = 1 << depth
+        init = rng.choice([1, 7, rand_fr(rng)])
+        ops = []
+        for _ in range(rng.randint(1, 8)):
+            ops.append(treegen.gen_mutator(rng, cap, ["set", "set", "del", "del", "app", "range"]))
+            ops += [f"proof {hex(i)}" for i in range(cap)] + ["root", "next"]
+        outs = {}
+        for backend in ("full", "opt"):
+            outs[backend] = core.run_impl(zkh, [f"tree newinit {backend} {depth} {hex(init)}"] + ops)[1:]
+        run.count_case(("newinit", depth, init, tuple(ops)))
+        run.cov["traces_validated_against_impl"] += 1
+        for j, l in enumerate(ops):
+            a, b = outs["full"][j], outs["opt"][j]
+            broken = next((x for x in (a, b) if l.startswith("proof ") and x != "err" and ("recomputes=true" not in x or not x.endswith("accepted"))), None)
+            # the result code of deleting an unset position is backend-specific (C06); everything else must agree
+            if broken or (a != b and not (l.startswith("del ") and {a, b} <= {"ok", "err"})):
+                bad += 1
+                if bad <= 2:
+                    run.violation({"property": run.pid, "kind": "impl-vs-spec", "stream": "custom-initial-leaf", "ops": [f"tree newinit full|opt {depth} {hex(init)}"] + ops[: j + 1],
+                                   "detail": (f"a proof does not recompute the root / is rejected by its own tree: {broken[-60:]}" if broken else f"the in-memory backends disagree on `{l}`: full={a[:80]} opt={b[:80]}")})
+                break
+    run.cov["custom_initial_leaf_histories"] = 20 if quick else 200
+    run.rules.append("trees created with an initial leaf other than the default leaf (both in-memory backends, depth 2..5): after every mutator every position's proof must recompute the root and pass the tree's own check, and the two backends must agree; random histories, then for every position (depth <= 4) or boundary+random positions: the proof's siblings, direction bits, length, decoded index, recomputed root, own check; then every single-sibling replacement, every direction-bit flip and a foreign leaf value must be rejected unless the ideal tree says the altered path still recomputes the root; distinct = distinct op sequence")
